@@ -8,7 +8,8 @@ def specs():
     return [TaskSpec("process", "contracts.buffer", "task_process", (), replay_kind="buffer.process"),
             TaskSpec("_find_message_in_buffer", "contracts.buffer", "task_find", (), replay_kind="buffer.process"),
             TaskSpec("_cleanup_buffer", "contracts.buffer", "task_cleanup", ("_cleanup_buffer",), replay_kind="buffer.process"),
-            TaskSpec("_cleanup_beginning", "contracts.buffer", "task_cleanup", ("_cleanup_beginning",), replay_kind="buffer.process")]
+            TaskSpec("_cleanup_beginning", "contracts.buffer", "task_cleanup", ("_cleanup_beginning",), replay_kind="buffer.process"),
+            TaskSpec("_cleanup_beginning(exact)", "contracts.buffer", "task_cleanup_beginning_exact", (), replay_kind="buffer.process", timeout_ms=4000)]
 
 
 def buffer_functions(chk):
